@@ -43,6 +43,11 @@ CLAIMED = {
    note="Trusted: spec.rs encodings, FIONREAD==0 as 'segment consumed', the inference of a partial write from a stalled sender with an off-boundary byte count. With this kernel's minimum send buffer a descriptor-carrying message (<= 1044 bytes) is never split by a partial write, so descriptor placement under partial writes is only exercised for whole messages. A receiver still blocked after 10 s counts as blocking forever.",
    technique="exhaustive fault enumeration (all split points / cut offsets) with differential oracle against unsplit delivery; provoked partial writes",
    ref="DESIGN.md section 3, C08"),
+ "C09": dict(level="exploration",
+   text="Descriptor accounting by exact set equality of /proc/self/fd: every scenario starts from a snapshot of the process's open descriptor numbers and must return to exactly that set after all endpoints, handler-owned files and harness copies are dropped. Scenarios: (1) 6000 mutated request streams with 0..=40 descriptors per chunk at byte 0 or a random byte against the real BackendReqHandler, torn down after a generated number of handle_request calls (incl. with unread descriptor-carrying messages in the socket); every identity a handler receives must have been sent and is received at most once, nothing may stay open between calls that was not handed over; (2) 3000 back-end-request streams against FrontendReqHandler (descriptors lent to the handler must be closed after the call); (3) 6000 Frontend calls answered with mutated replies carrying 0..=3 descriptors; (4) 500 C02 sessions with lent descriptors of five kinds; (5) 300 daemon message sequences, differential against an empty session on the same fixture.",
+   note="Trusted: /proc/self/fd and fstat/fdinfo identities (no kcmp in this sandbox), harness-sent descriptors are fresh memfds/eventfds with unique identities. Daemon level is differential because the fixture itself leaves the exit-event consumer registered in the worker's epoll set open (not a descriptor that arrived over a socket).",
+   technique="property-based resource accounting: generated histories x teardown points with exact fd-set equality oracle",
+   ref="DESIGN.md section 3, C09"),
  "C10": dict(level="exploration",
    text="Controlled concurrency runs with harness-owned hold points between 'request written' and 'reply read' in the Frontend, the Backend proxy and the GpuBackend: every op mix of two callers (and sampled / all mixes of three) over {two reply-bearing codes, acknowledged, fire-and-forget} x every release order; the first caller is parked with its request outstanding, the others are started and must settle (blocked on the endpoint lock), the raw peer sees the wire and answers every request with that request's identity. Checked: no request reaches the wire while another caller sits between write and read, every caller gets its own answer and no error, all complete. Plus uncontrolled stress (8 threads x 200 mixed calls per endpoint; 16 x 20000 thorough) with an identity-echoing responder, which covers windows the hold point does not expose.",
    note="Trusted: hold-point controller and thread-state sampling (a caller asleep without being parked is 'blocked on the lock'). Atomicity is explored at hold-point granularity (one window per call); interleavings inside sendmsg/recvmsg are the kernel's. The stress part is probabilistic.",
@@ -100,7 +105,7 @@ CLAIMED = {
    ref="DESIGN.md section 3, C20"),
 }
 
-PENDING_REASON = "check not built yet in this revision of /verif (work in progress, see DESIGN.md section 3); not claimed until its check exists"
+PENDING_REASON = "(none pending) check not built yet in this revision of /verif (work in progress, see DESIGN.md section 3); not claimed until its check exists"
 
 def main():
     props = [json.loads(l) for l in open('/verif/properties.jsonl')]
